@@ -24,6 +24,12 @@ SCRIPTS = [
       "0@compile", "0", "w0", "0*", "1*"]),
     ("didopen-late-is-compiling-store", "O",
      ["s0", "1@set_ic_late", "0@compile", "0", "w0", "0*", "1*"]),
+    # a pending didChange request is drained by didSave before the worker picks it up: the
+    # replacement must still announce the edit (found by the thorough tier, fixed in /repo)
+    ("drained-edit-request-version-lost", "OCS",
+     ["s0", "1*", "0@compile", "0", "w0", "0*", "w1", "1*", "s1", "2*", "s2", "3*", "0@compile", "0", "w0", "0*", "w3", "3*"]),
+    ("drained-edit-request-version-lost", "OCSR",
+     ["s0", "1*", "0@compile", "0", "w0", "0@clr_ic", "s1", "2*", "s2", "3*", "s3", "4*", "0@compile", "0", "w0", "0*"]),
     # the same three with a second round of edits behind them
     ("lost-wakeup-wait-for-parsing", "ORCR",
      ["s0", "1@check", "0@compile", "0", "w0", "0@clr_ic", "s1", "2@await", "0*", "2*", "1*", "s2", "s3",
@@ -150,7 +156,7 @@ def run(ctx):
             stats["last_failed_example"] = {"events": c["events"], "seed": c.get("seed"), "error": r.get("last_error", "")[:200]}
         elif final_res == 0 or r["marker"] != latest:
             stats["stale"] += 1
-            ctx.violation(key if key == "stale-retrigger-abort" else "stale-%s" % c["id"],
+            ctx.violation(key if key in ("stale-retrigger-abort", "drained-edit-request-version-lost") else "stale-%s" % c["id"],
                           dict(replay, compiled_version=r["marker"], latest_version=latest),
                           "quiescent server answers from document version %s, the latest edit is version %s (events %s)" % (r["marker"], latest, c["events"]))
         seen.add((c["events"], tuple((t, a) for t, a, _ in tr)))
